@@ -183,8 +183,14 @@ ldb_set_current_file(const char *dbname, uint64_t desc_number) {
   if (rc == LDB_OK)
     rc = ldb_rename_file(tmp, cur);
 
-  if (rc != LDB_OK)
+  if (rc != LDB_OK) {
     ldb_remove_file(tmp);
+  } else {
+    /* Make the switch durable before the caller removes the files the
+       old MANIFEST needed. Best effort: CURRENT already names a complete
+       MANIFEST, so a failure here must not undo the switch. */
+    ldb_sync_dir(dbname);
+  }
 
   return rc;
 }
